@@ -1,11 +1,433 @@
-//! C01 — not built yet (see DESIGN.md §5 C01).
+//! C01 — SELECT results agree with reference SQL semantics on the common subset (DESIGN §5 C01).
+//!
+//! Small-scope exhaustive enumeration: every database of a family's database space × every program of
+//! the family, vibesql (real parser + SelectExecutor) against bundled SQLite on the same data.
+//! The (database, program) grid is sharded over worker processes (see `shard.rs`); the parent merges
+//! their counters, re-executes every failing case from scratch and decides.
 
-pub fn run(_tier: &str) -> i32 {
-    eprintln!("MACHINERY-ERROR C01 is not built yet");
-    2
+use std::collections::{BTreeMap, HashMap, HashSet};
+use std::time::Instant;
+
+use rusqlite::Connection;
+use serde_json::{json, Value};
+
+use crate::dbs::{self, Db};
+use crate::fam::{self, Family};
+use crate::oracle::{self, Flat, Verdict};
+use crate::q::{self, Q};
+use crate::shard;
+use vcore::report::Report;
+
+pub struct Prog {
+    pub q: Q,
+    pub flat: Flat,
+    pub stmt: Option<vibesql_ast::SelectStmt>,
+    pub parse_err: Option<String>,
 }
 
-pub fn replay(_case: &serde_json::Value) -> i32 {
-    eprintln!("MACHINERY-ERROR C01 is not built yet");
-    2
+pub fn schema_conn() -> Connection {
+    let c = Connection::open_in_memory().expect("sqlite open");
+    for s in dbs::SCHEMA {
+        c.execute_batch(s).expect("sqlite schema");
+    }
+    c
+}
+
+/// Programs of a family, flattened and parsed once. Errors = family bugs (machinery), returned as text.
+fn prepare(f: &Family) -> (Vec<Prog>, Vec<String>) {
+    let schema = schema_conn();
+    let mut out = vec![];
+    let mut errs = vec![];
+    let mut seen = HashSet::new();
+    for q in &f.progs {
+        let flat = match Flat::build(q, &schema) {
+            Ok(x) => x,
+            Err(e) => {
+                errs.push(format!("family {}: {}", f.name, e));
+                continue;
+            }
+        };
+        if !seen.insert(flat.vibe.clone()) {
+            continue; // the same text generated twice by overlapping menus
+        }
+        let (stmt, parse_err) = match vcore::exec::parse(&flat.vibe) {
+            Ok(vibesql_ast::Statement::Select(s)) => (Some(*s), None),
+            Ok(_) => (None, Some("not parsed as SELECT".to_string())),
+            Err(e) => (None, Some(e)),
+        };
+        out.push(Prog { q: q.clone(), flat, stmt, parse_err });
+    }
+    (out, errs)
+}
+
+fn families(tier: &str) -> Vec<Family> {
+    let only: Option<Vec<String>> = std::env::var("VERIF_C01_FAMILIES").ok().map(|s| s.split(',').map(|x| x.to_string()).collect());
+    fam::all(tier == "thorough").into_iter().filter(|f| only.as_ref().map(|o| o.iter().any(|x| x == f.name)).unwrap_or(true)).collect()
+}
+
+fn budget(tier: &str) -> f64 {
+    std::env::var("VERIF_C01_BUDGET_S").ok().and_then(|s| s.parse().ok()).unwrap_or(if tier == "thorough" { 1200.0 } else { 300.0 })
+}
+
+// ------------------------------------------------------------------------------------------------
+// worker
+
+#[derive(Default)]
+struct Acc {
+    dbs_done: u64,
+    cases: u64,
+    agree: u64,
+    agree_seq: u64,
+    nonempty: u64,
+    vibe_err: u64,
+    vibe_panic: u64,
+    skip_ties: u64,
+    classes: [u64; 3],
+    outcomes: Vec<u64>,
+    /// (db index, program index, kind, expected, got)
+    bad: Vec<(usize, usize, String, String, String)>,
+    ref_err: Vec<String>,
+    /// program index -> (databases on which vibesql failed, first message)
+    prog_err: BTreeMap<usize, (u64, String)>,
+}
+
+fn run_db(db_idx: usize, db: &Db, progs: &[Prog], o: &mut Acc) {
+    let vdb = dbs::vibe_db(db);
+    let mut vibe = oracle::Vibe::new(&vdb);
+    let (n, d, e) = db.class();
+    o.dbs_done += 1;
+    o.classes[0] += n as u64;
+    o.classes[1] += d as u64;
+    o.classes[2] += e as u64;
+    dbs::with_lite(db, |c| {
+        for (i, p) in progs.iter().enumerate() {
+            let Some(stmt) = &p.stmt else { continue };
+            let r = oracle::run_case(&p.flat, stmt, &mut vibe, c);
+            o.cases += 1;
+            o.outcomes.push(vcore::util::hash64(&[&(i as u64).to_le_bytes()[..], &r.outcome.to_le_bytes()[..]].concat()));
+            if r.nonempty {
+                o.nonempty += 1;
+            }
+            match r.verdict {
+                Verdict::Agree { seq } => {
+                    o.agree += 1;
+                    if seq {
+                        o.agree_seq += 1;
+                    }
+                }
+                Verdict::Mismatch { kind, expected, got } => o.bad.push((db_idx, i, kind.to_string(), expected, got)),
+                Verdict::VibeErr(m) => {
+                    o.vibe_err += 1;
+                    o.prog_err.entry(i).or_insert((0, m)).0 += 1;
+                }
+                Verdict::VibePanic(m) => {
+                    o.vibe_panic += 1;
+                    o.prog_err.entry(i).or_insert((0, format!("PANIC {}", m))).0 += 1;
+                }
+                Verdict::SkipTies => o.skip_ties += 1,
+                Verdict::RefErr(e) => {
+                    if o.ref_err.len() < 3 {
+                        o.ref_err.push(e)
+                    }
+                }
+            }
+        }
+    });
+}
+
+/// `sqlspacecheck shard C01 <tier> <i> <k>`: databases with index ≡ i (mod k) of every family.
+pub fn shard_main(tier: &str, i: usize, k: usize) -> i32 {
+    let start = Instant::now();
+    let budget_s = budget(tier);
+    let _ = q::probe_null_placement();
+    let mut fams_out = vec![];
+    for f in families(tier) {
+        let (progs, errs) = prepare(&f);
+        let dbsv = f.dbs.all();
+        let mut acc = Acc::default();
+        let mut assigned = 0u64;
+        for (idx, db) in dbsv.iter().enumerate() {
+            if idx % k != i {
+                continue;
+            }
+            assigned += 1;
+            if start.elapsed().as_secs_f64() > budget_s {
+                continue;
+            }
+            run_db(idx, db, &progs, &mut acc);
+        }
+        // a failing program fails on many databases: keep the smallest witnesses only
+        let mut per_prog: HashMap<(usize, String), usize> = HashMap::new();
+        let total_bad = acc.bad.len();
+        acc.bad.retain(|(_, p, kind, _, _)| {
+            let c = per_prog.entry((*p, kind.clone())).or_insert(0);
+            *c += 1;
+            *c <= 2
+        });
+        fams_out.push(json!({
+            "family": f.name, "prepare_errors": errs, "assigned": assigned, "dbs_done": acc.dbs_done, "cases": acc.cases, "agree": acc.agree,
+            "agree_seq": acc.agree_seq, "nonempty": acc.nonempty, "vibe_err": acc.vibe_err, "vibe_panic": acc.vibe_panic, "skip_ties": acc.skip_ties,
+            "classes": acc.classes, "outcomes": acc.outcomes, "bad": acc.bad, "bad_total": total_bad, "ref_err": acc.ref_err,
+            "prog_err": acc.prog_err.iter().map(|(p, (n, m))| json!([p, n, m])).collect::<Vec<_>>(),
+        }));
+    }
+    let snap: BTreeMap<String, u64> = vibesql_types::verif::snapshot().into_iter().filter(|(_, v)| *v > 0).map(|(k, v)| (k.to_string(), v)).collect();
+    println!("{}", json!({"families": fams_out, "reach": snap}));
+    0
+}
+
+// ------------------------------------------------------------------------------------------------
+// parent
+
+fn case_json(family: &str, db: &Db, p: &Prog) -> Value {
+    json!({"family": family, "db": db.statements(), "program": p.flat.json()})
+}
+
+fn u(v: &Value) -> u64 {
+    v.as_u64().unwrap_or(0)
+}
+
+pub fn run(tier: &str) -> i32 {
+    let mut rep = Report::new("C01", tier, "model_checking");
+    let start = Instant::now();
+    match q::probe_null_placement() {
+        Ok((a, d)) => rep.set("null_placement_probed", json!({"asc_nulls_last": a, "desc_nulls_last": d})),
+        Err(e) => {
+            // a plain ORDER BY that loses or misplaces rows: keep the defaults, the SORT family will report it
+            rep.set("null_placement_probed", json!({"failed": e}));
+        }
+    }
+    let k = shard::n_shards();
+    let docs = match shard::run_shards("C01", tier, k) {
+        Ok(d) => d,
+        Err(e) => {
+            rep.machinery_error(format!("worker processes: {}", e));
+            rep.set("exhaustive", json!(false));
+            rep.set("states", json!(0));
+            rep.set("transitions", json!(0));
+            rep.set("samples", json!([]));
+            return rep.finish();
+        }
+    };
+    let explore_s = start.elapsed().as_secs_f64();
+
+    let fams = families(tier);
+    let mut fam_cov = vec![];
+    let (mut total_cases, mut total_dbs, mut total_progs, mut nonempty_total, mut err_total, mut panic_total) = (0u64, 0u64, 0u64, 0u64, 0u64, 0u64);
+    let mut all_outcomes: HashSet<u64> = HashSet::new();
+    let mut samples: Vec<Value> = vec![];
+    let mut exhaustive = true;
+    let mut rejected_programs: Vec<Value> = vec![];
+    let mut confirmed: HashMap<String, bool> = Default::default();
+    let mut reach: BTreeMap<String, u64> = BTreeMap::new();
+    for d in &docs {
+        if let Some(m) = d["reach"].as_object() {
+            for (k, v) in m {
+                *reach.entry(k.clone()).or_insert(0) += u(v);
+            }
+        }
+    }
+
+    for (fi, f) in fams.iter().enumerate() {
+        let (progs, errs) = prepare(f);
+        for e in errs {
+            rep.machinery_error(e);
+        }
+        let dbsv = f.dbs.all();
+        let n_parse_rej = progs.iter().filter(|p| p.stmt.is_none()).count();
+        for p in progs.iter().filter(|p| p.stmt.is_none()).take(5) {
+            rejected_programs.push(json!({"family": f.name, "sql": p.flat.vibe, "error": vcore::util::trunc(p.parse_err.as_deref().unwrap_or(""), 120)}));
+        }
+        let mut c = [0u64; 8]; // dbs_done cases agree agree_seq nonempty vibe_err vibe_panic skip_ties
+        let mut classes = [0u64; 3];
+        let mut bad: Vec<(usize, usize, String, String, String)> = vec![];
+        let mut bad_total = 0u64;
+        let mut prog_err: BTreeMap<usize, (u64, String)> = BTreeMap::new();
+        for d in &docs {
+            let x = &d["families"][fi];
+            if x["family"].as_str() != Some(f.name) {
+                rep.machinery_error(format!("worker document out of step at family {}", f.name));
+                continue;
+            }
+            for (slot, key) in ["dbs_done", "cases", "agree", "agree_seq", "nonempty", "vibe_err", "vibe_panic", "skip_ties"].iter().enumerate() {
+                c[slot] += u(&x[*key]);
+            }
+            for j in 0..3 {
+                classes[j] += u(&x["classes"][j]);
+            }
+            if u(&x["dbs_done"]) < u(&x["assigned"]) {
+                exhaustive = false;
+            }
+            bad_total += u(&x["bad_total"]);
+            if let Some(a) = x["outcomes"].as_array() {
+                all_outcomes.extend(a.iter().map(u));
+            }
+            for e in x["ref_err"].as_array().map(|a| a.as_slice()).unwrap_or(&[]) {
+                rep.machinery_error(format!("family {}: reference failure: {}", f.name, vcore::util::trunc(e.as_str().unwrap_or(""), 400)));
+            }
+            for b in x["bad"].as_array().map(|a| a.as_slice()).unwrap_or(&[]) {
+                bad.push((u(&b[0]) as usize, u(&b[1]) as usize, b[2].as_str().unwrap_or("").to_string(), b[3].as_str().unwrap_or("").to_string(), b[4].as_str().unwrap_or("").to_string()));
+            }
+            for e in x["prog_err"].as_array().map(|a| a.as_slice()).unwrap_or(&[]) {
+                let ent = prog_err.entry(u(&e[0]) as usize).or_insert((0, e[2].as_str().unwrap_or("").to_string()));
+                ent.0 += u(&e[1]);
+            }
+        }
+        // smallest database first, then simplest program first: the first witness of a signature is minimal
+        bad.sort_by_key(|(d, p, ..)| (*d, *p));
+        let extra_failing = bad_total.saturating_sub(bad.len() as u64);
+        for (di, pi, kind, expected, got) in &bad {
+            let (Some(db), Some(p)) = (dbsv.get(*di), progs.get(*pi)) else {
+                rep.machinery_error(format!("family {}: worker reported an unknown case ({}, {})", f.name, di, pi));
+                continue;
+            };
+            let mut sig = q::signature(f.name, &p.q);
+            sig.push(("kind", kind.clone()));
+            let local_key = format!("{:?}", sig);
+            if let Some(stab) = confirmed.get(&local_key) {
+                // same signature already confirmed on a smaller database: only counted
+                if *stab {
+                    sig.push(("stability", "varies_between_runs".to_string()));
+                }
+                rep.violation(&sig, String::new(), Value::Null);
+                continue;
+            }
+            // R3: re-execute from scratch (fresh engines, fresh parse) before reporting. The reference
+            // side must answer identically every time. vibesql's hash maps are randomly seeded, so a
+            // wrong answer may come and go between runs: it is reported when the same kind of
+            // mismatch reproduces in at least two fresh re-executions, otherwise it is a machinery error.
+            let stmts = db.statements();
+            let mut repro = 0;
+            let mut tries = 0;
+            let mut refs: Vec<String> = vec![];
+            let mut seen: Vec<Verdict> = vec![];
+            while tries < 12 && repro < 2 {
+                tries += 1;
+                let (vx, rx, _) = oracle::rerun(&stmts, &p.flat);
+                if matches!(&vx, Verdict::Mismatch { kind: k, .. } if k == kind) {
+                    repro += 1;
+                }
+                refs.push(rx);
+                seen.push(vx);
+            }
+            refs.dedup();
+            if repro < 2 || refs.len() != 1 {
+                rep.machinery_error(format!(
+                    "family {}: `{}` on {:?}: {} mismatch (expected {}, got {}) not reproducible in {} fresh re-executions ({:?}; reference answers {:?})",
+                    f.name,
+                    p.flat.vibe,
+                    db.inserts(),
+                    kind,
+                    expected,
+                    got,
+                    tries,
+                    seen,
+                    refs
+                ));
+                continue;
+            }
+            confirmed.insert(local_key, tries > 2);
+            if tries > 2 {
+                sig.push(("stability", "varies_between_runs".to_string()));
+            }
+            rep.violation(&sig, format!("`{}` on {} — SQLite ({}): {} ; vibesql: {}", p.flat.vibe, db.inserts().join("; "), kind, expected, got), case_json(f.name, db, p));
+        }
+        rep.total_failing_cases.fetch_add(extra_failing, std::sync::atomic::Ordering::Relaxed);
+
+        if samples.len() < 40 {
+            for p in progs.iter().filter(|p| p.stmt.is_some()).step_by((progs.len() / 4).max(1)).take(4) {
+                samples.push(json!({"family": f.name, "vibesql": p.flat.vibe, "sqlite": p.flat.lite, "db": dbsv.last().map(|d| d.inserts())}));
+            }
+        }
+        for (i, (n, m)) in prog_err.iter().take(6) {
+            rejected_programs.push(json!({"family": f.name, "sql": progs[*i].flat.vibe, "error": vcore::util::trunc(m, 120), "databases": n}));
+        }
+        total_cases += c[1];
+        total_dbs += c[0];
+        total_progs += progs.len() as u64;
+        nonempty_total += c[4];
+        err_total += c[5];
+        panic_total += c[6];
+        println!(
+            "C01 {:9} programs={} (rejected by vibesql's parser: {}) dbs={}/{} cases={} agree={} (sequence-checked {}) nonempty={} vibesql_err={} panic={} skipped_ties={} failing={}",
+            f.name,
+            progs.len(),
+            n_parse_rej,
+            c[0],
+            dbsv.len(),
+            c[1],
+            c[2],
+            c[3],
+            c[4],
+            c[5],
+            c[6],
+            c[7],
+            bad_total
+        );
+        fam_cov.push(json!({
+            "family": f.name, "mechanism": f.mechanism, "programs": progs.len(), "programs_rejected_by_vibesql_parser": n_parse_rej,
+            "databases": c[0], "databases_in_space": dbsv.len(), "database_space": f.dbs.describe(),
+            "databases_with_null": classes[0], "databases_with_duplicate_rows": classes[1], "databases_with_an_empty_table": classes[2],
+            "cases": c[1], "agree": c[2], "agree_sequence_checked": c[3], "nonempty_reference_result": c[4],
+            "vibesql_error_not_a_case": c[5], "vibesql_panic_not_a_case": c[6], "skipped_ties_under_limit": c[7], "failing_cases": bad_total,
+        }));
+    }
+    println!("C01 explored by {} worker processes in {:.1}s wall / {:.0} CPU-s, failing cases confirmed by {:.1}s", k, explore_s, crate::shard::children_cpu_s(), start.elapsed().as_secs_f64());
+
+    rep.set("families", json!(fam_cov));
+    rep.set("worker_processes", json!(k));
+    rep.set("worker_cpu_seconds", json!(crate::shard::children_cpu_s()));
+    rep.set("states", json!(total_dbs));
+    rep.set("transitions", json!(total_cases));
+    rep.set("traces_validated_against_impl", json!(total_cases));
+    rep.set("evaluations", json!(total_cases));
+    rep.set("programs", json!(total_progs));
+    rep.set("distinct_nontrivial", json!(all_outcomes.len()));
+    rep.set("nonempty_reference_results", json!(nonempty_total));
+    rep.set("vibesql_errors_not_cases", json!(err_total));
+    rep.set("vibesql_panics_not_cases", json!(panic_total));
+    rep.set("programs_vibesql_rejects_samples", json!(rejected_programs));
+    rep.set("exhaustive", json!(exhaustive));
+    if !exhaustive {
+        rep.set("capped", json!(format!("time budget {} s reached: some databases of the later families were not run (see families[].databases vs databases_in_space)", budget(tier))));
+    }
+    rep.set("rule", json!("a state is a database (all bags / insertion sequences of <= n rows over the family's row menu); a transition executes one program of the family on it through Parser::parse_sql + SelectExecutor::execute and compares with SQLite (bag; sequence when ORDER BY determines it; key order otherwise). distinct_nontrivial = distinct (program, normalised reference result) pairs"));
+    rep.set("samples", json!(samples));
+    rep.set("reach", json!(reach));
+    rep.assume("bundled SQLite 3.46 implements the shared subset correctly (NULL placement requested explicitly as probed from vibesql's plain ORDER BY; LIMIT -1 OFFSET n for a bare OFFSET)");
+    rep.assume("INTERSECT ALL / EXCEPT ALL: operands by SQLite, combination by a 20-line bag reference that is itself compared with SQLite on every chain SQLite can run");
+    rep.finish()
+}
+
+pub fn replay(case: &Value) -> i32 {
+    let _ = q::probe_null_placement();
+    let Some(flat) = Flat::from_json(&case["program"]) else {
+        eprintln!("bad case: program");
+        return 2;
+    };
+    let stmts: Vec<String> = case["db"].as_array().map(|a| a.iter().filter_map(|x| x.as_str().map(|s| s.to_string())).collect()).unwrap_or_default();
+    for s in &stmts {
+        println!("{};", s);
+    }
+    println!("vibesql> {}", flat.vibe);
+    if let Some(l) = &flat.lite {
+        println!("sqlite > {}", l);
+    }
+    let (v, r, g) = oracle::rerun(&stmts, &flat);
+    println!("reference: {}", r);
+    println!("vibesql  : {}", g);
+    match v {
+        Verdict::Mismatch { kind, .. } => {
+            println!("verdict: MISMATCH ({})", kind);
+            1
+        }
+        Verdict::RefErr(e) => {
+            eprintln!("MACHINERY-ERROR {}", e);
+            2
+        }
+        other => {
+            println!("verdict: {:?}", other);
+            0
+        }
+    }
 }
